@@ -9,7 +9,7 @@ STATES = {"normal": 0, "conserving": 1, "starving": 2, "feasting": 3, "dormant":
 BUDGETS = [0, 0, 1, 2, 3, 5, 8, 10, 10, 12, 20, 50, 100]
 GTPS = [0, 0, 0, 3, 5, 10]
 NADHS = [0, 0, 3, 5, 8]
-DEBTS = [0, 0, 5, 10, 10, 20]
+DEBTS = [0, 0, 5, 10, 10, 20, 100]
 RATES = [0.1, 0.1, 0.0, 0.5, 0.25, 1.0, 0.3, 0.05]
 PRIOS = [0, 0, 0, 4, 5, 9, 10, 12]
 
@@ -80,7 +80,10 @@ class C04(Check):
             "enter/exit dormancy, apply_debt_interest, reset, all amounts >= 0; half of the amounts are chosen at a "
             "boundary of the store the history has reached (cost == balance, balance+1, balance+NADH, exactly / one past "
             "the debt room, amount == capacity gap); plus every history of <=2 (quick) / <=3 (thorough) calls over a "
-            "13-call alphabet from 8 one-store configurations incl. all-zero capacity. non-trivial = the history contains a "
+            "13-call alphabet from 8 one-store configurations incl. all-zero capacity; every history of 4 (quick) / 5 (thorough) "
+            "calls over {borrow 1,2,3; interest; repay 1,2} on a store with only a credit line of 2; 8% of generator steps "
+            "insert a steered loan cycle (borrow to within 0..2 of the limit, apply_debt_interest, regenerate the debt / the "
+            "interest / one less / more, borrow again exactly at / just past the room). non-trivial = the history contains a "
             "consume that is not a plain deduction (top-up, debt, refusal, gate) or a transfer; distinct by case content")
     LEVEL_TEXT = ("Coq theorems over every system of stores, every configuration with non-negative capacities and every "
                   "finite history with non-negative amounts (no bound on length or magnitudes), for every state classifier "
@@ -169,6 +172,10 @@ class C04(Check):
                     snap = None
             r = rng.random()
             t = rng.choice(["ATP", "ATP", "ATP", "GTP", "NADH"])
+            if snap is not None and snap["max_debt"] > 0 and rng.random() < 0.08 and len(ops) + 4 <= 40:
+                # borrow to (within a little of) the limit / interest / repay / borrow again
+                self._loan_cycle(rng, M, stores, i, ops)
+                continue
             if r < 0.50:
                 op = ["consume", i, self._amount(rng, snap, t, "consume"), t, rng.random() < 0.6, rng.choice(PRIOS)]
             elif r < 0.62:
@@ -194,6 +201,25 @@ class C04(Check):
                     pass
         return {"stores": cfgs, "ops": ops}
 
+    def _loan_cycle(self, rng, M, stores, i, ops):
+        def do(op):
+            ops.append(op)
+            try:
+                _apply(M, stores, op)
+            except Exception:
+                pass
+        sn = _snap(stores[i])
+        reach = sn["atp"] + sn["nadh"] + max(0, sn["max_debt"] - sn["debt"])
+        do(["consume", i, max(0, reach - rng.choice([0, 0, 0, 1, 2, sn["max_debt"] // 10])), "ATP", True, 10])
+        before = _snap(stores[i])["debt"]
+        do(["interest", i])
+        sn = _snap(stores[i])
+        charged = sn["debt"] - before
+        do(["regen", i, max(0, rng.choice([sn["debt"], sn["debt"], charged, charged + 1, sn["debt"] - 1, sn["debt"] + 3, 1])), "ATP"])
+        sn = _snap(stores[i])
+        reach = sn["atp"] + sn["nadh"] + max(0, sn["max_debt"] - sn["debt"])
+        do(["consume", i, max(0, reach + rng.choice([0, 1, 1, 2, charged, charged + 1])), "ATP", True, 10])
+
     def exhaustive_cases(self):
         cfgs = [{"budget": b, "gtp": 0, "nadh": nd, "max_debt": md, "rate": 1.0}
                 for b in (0, 2) for nd in (0, 1) for md in (0, 2)]
@@ -205,6 +231,12 @@ class C04(Check):
             for n in range(1, top + 1):
                 for combo in itertools.product(alpha, repeat=n):
                     out.append({"stores": [cfg], "ops": [list(o) for o in combo]})
+        # every history of 4 (quick) / 5 (thorough) calls over borrow / interest / repay on a store with
+        # nothing but a credit line (rate 1.0 so that every charge is visible)
+        loan = [["consume", 0, c, "ATP", True, 10] for c in (1, 2, 3)] + [["interest", 0], ["regen", 0, 1, "ATP"], ["regen", 0, 2, "ATP"]]
+        cfg = {"budget": 0, "gtp": 0, "nadh": 0, "max_debt": 2, "rate": 1.0}
+        for combo in itertools.product(loan, repeat=top + 2):
+            out.append({"stores": [cfg], "ops": [list(o) for o in combo]})
         return out
 
     # -- implementation ----------------------------------------------------
@@ -282,8 +314,10 @@ class C04(Check):
         def bound(s, acc):
             return s["atp"] + s["gtp"] + s["nadh"] + s["max_debt"] + acc - s["debt"]
 
-        accrued = [0] * n
+        owed = [0] * n      # interest still outstanding: + each charge, a payment p leaves max(0, owed - p)
         base = [bound(s, 0) for s in trace["init"]]
+        borrowed = [0] * n  # principal borrowed since the last inflow
+        room = [max(0, s["max_debt"] - s["debt"]) for s in trace["init"]]
         spent = [0] * n
         for k, st in enumerate(trace["steps"]):
             op, ret, pre, post = st["op"], st["ret"], st["pre"], st["post"]
@@ -292,18 +326,29 @@ class C04(Check):
             # no operation raises
             if st["exc"] is not None:
                 return Violation("C04/raises", f"{where} raised {st['exc']}")
-            # ghost: interest accrued
-            if kind == "interest":
-                accrued[i] += post[i]["debt"] - pre[i]["debt"]
-            if kind == "reset":
-                accrued[i] = 0
+            # the code only borrows within the limit: a spend that raised the debt leaves it <= max_debt
+            if kind == "consume" and post[i]["debt"] > pre[i]["debt"]:
+                if ret is not True:
+                    return Violation("C04/failure-not-free", f"{where} raised the debt without reporting success")
+                if post[i]["debt"] > post[i]["max_debt"]:
+                    return Violation("C04/borrow-over-limit",
+                                     f"{where} borrowed {post[i]['debt'] - pre[i]['debt']}: debt {post[i]['debt']} > max_debt {post[i]['max_debt']}")
+            # ghost: interest outstanding
+            for j in range(n):
+                delta = post[j]["debt"] - pre[j]["debt"]
+                if kind == "interest" and j == i:
+                    owed[j] += delta
+                elif kind == "reset" and j == i:
+                    owed[j] = 0
+                elif delta < 0:
+                    owed[j] = max(0, owed[j] + delta)
             # ledger invariant on every store
             for j, s in enumerate(post):
                 if min(s["atp"], s["gtp"], s["nadh"]) < 0:
                     return Violation("C04/overdraft", f"{where}: store {j} has a negative balance {s}")
-                if s["debt"] < 0 or s["debt"] > s["max_debt"] + accrued[j]:
+                if s["debt"] < 0 or s["debt"] > s["max_debt"] + owed[j]:
                     return Violation("C04/debt-over-limit",
-                                     f"{where}: store {j} debt {s['debt']} outside [0, max_debt {s['max_debt']} + interest {accrued[j]}]")
+                                     f"{where}: store {j} debt {s['debt']} outside [0, max_debt {s['max_debt']} + outstanding interest {owed[j]}]")
             # frame: stores the call does not name are untouched
             touched = {i, op[2]} if kind == "transfer" else {i}
             for j in range(n):
@@ -318,6 +363,10 @@ class C04(Check):
                                          f"{where} reported success and changed net worth by {_nw(b) - _nw(a)} instead of {-cost}")
                     if b["total"] != a["total"] + cost:
                         return Violation("C04/inexact-charge", f"{where}: total_consumed moved by {b['total'] - a['total']} for a cost of {cost}")
+                    borrowed[i] += b["debt"] - a["debt"]
+                    if borrowed[i] > room[i]:
+                        return Violation("C04/borrow-over-limit",
+                                         f"{where}: principal borrowed since the last inflow totals {borrowed[i]} > debt room {room[i]} it started with")
                     spent[i] += cost
                     if spent[i] > base[i]:
                         return Violation("C04/spend-unbounded",
@@ -338,7 +387,8 @@ class C04(Check):
                         return Violation("C04/regen-above-cap", f"{where} changed the {u} pool")
                 if _nw(b) > _nw(a) + amount or b["debt"] > a["debt"]:
                     return Violation("C04/regen-creates", f"{where} raised net worth by {_nw(b) - _nw(a)} > {amount}")
-                base[i], spent[i] = bound(b, accrued[i]), 0
+                base[i], spent[i] = bound(b, owed[i]), 0
+                borrowed[i], room[i] = 0, max(0, b["max_debt"] - (b["debt"] - owed[i]))
             elif kind == "transfer":
                 j, amount = op[2], op[3]
                 both = {i, j}
@@ -352,7 +402,8 @@ class C04(Check):
                     for u in ETYPES:
                         if _bal(post[j], u) > max(post[j]["max_" + u.lower()], _bal(pre[j], u)):
                             return Violation("C04/regen-above-cap", f"{where} lifted {u} of the receiver above its capacity")
-                    base[j], spent[j] = bound(post[j], accrued[j]), 0
+                    base[j], spent[j] = bound(post[j], owed[j]), 0
+                    borrowed[j], room[j] = 0, max(0, post[j]["max_debt"] - (post[j]["debt"] - owed[j]))
                     if i != j and _nw(post[i]) > _nw(pre[i]):
                         return Violation("C04/transfer-creates", f"{where}: the sender's net worth rose")
             elif kind == "convert":
@@ -370,15 +421,33 @@ class C04(Check):
                 if [b["atp"], b["gtp"], b["nadh"], b["debt"]] != [b["max_atp"], b["max_gtp"], b["max_nadh"], 0]:
                     return Violation("C04/frame", f"{where} did not restore the initial ledger")
                 base[i], spent[i] = bound(b, 0), 0
+                borrowed[i], room[i] = 0, b["max_debt"]
         return None
 
     # -- bookkeeping -------------------------------------------------------
     def _branches(self, trace):
         tags = set()
+        phase = {}   # store -> 0 nothing, 1 interest charged, 2 ... and (partly) repaid
         for st in trace.get("steps", []):
             op, ret, pre, post = st["op"], st["ret"], st["pre"], st["post"]
             kind, i = op[0], op[1]
             a, b = pre[i], post[i]
+            for j in range(len(post)):
+                if post[j]["debt"] < pre[j]["debt"] and phase.get(j, 0) >= 1:
+                    phase[j] = 2
+            if kind == "interest" and b["debt"] > a["debt"]:
+                phase[i] = max(1, phase.get(i, 0))
+                if b["debt"] > b["max_debt"]:
+                    tags.add("interest:debt-above-max_debt")
+            if kind == "reset":
+                phase[i] = 0
+            if kind == "consume" and op[4] and phase.get(i, 0) == 2:
+                if b["debt"] > a["debt"]:
+                    tags.add("cycle:borrow-after-interest-repaid")
+                    if b["debt"] == b["max_debt"]:
+                        tags.add("cycle:borrow-after-interest-repaid-to-the-limit")
+                elif ret is False and a["state"] not in (2, 4) and op[2] - _bal(a, op[3]) - (a["nadh"] if op[3] == "ATP" else 0) + a["debt"] == a["max_debt"] + 1:
+                    tags.add("cycle:refused-one-past-limit-after-interest-repaid")
             if kind == "consume":
                 cost, t, prio = op[2], op[3], op[5]
                 if ret is True:
